@@ -1,4 +1,7 @@
 use super::*;
+#[cfg(feature = "verif-hooks")]
+use crate::verif_hooks::{alloc, dealloc, realloc};
+#[cfg(not(feature = "verif-hooks"))]
 use alloc::alloc::{alloc, dealloc, realloc};
 use core::{alloc::Layout, hint, ptr, ptr::NonNull};
 
@@ -120,6 +123,14 @@ impl HeapBuffer {
     pub(super) fn as_str(&self) -> &str {
         let len = self.len();
         let ptr = self.ptr.as_ptr();
+        #[cfg(feature = "verif-hooks")]
+        crate::verif_hooks::note(
+            crate::verif_hooks::Access::Read,
+            ptr,
+            0,
+            len,
+            "HeapBuffer::as_str",
+        );
         // SAFETY: HeapBuffer contains valid `len` bytes of UTF-8 string.
         unsafe { core::str::from_utf8_unchecked(slice::from_raw_parts(ptr, len)) }
     }
@@ -190,6 +201,8 @@ impl HeapBuffer {
         // - `new_alloc_size` is greater than zero.
         // - `new_alloc_size` is ensured not to overflow when rounded up to the nearest multiple of
         //    alignment.
+        #[cfg(feature = "verif-hooks")]
+        self.verif_note_whole(cur_layout, "HeapBuffer::realloc");
         let mut allocation = unsafe { realloc(self.allocation(), cur_layout, new_alloc_size) };
         if allocation.is_null() {
             return Err(ReserveError);
@@ -232,6 +245,8 @@ impl HeapBuffer {
                 unsafe { hint::unreachable_unchecked() }
             }
         };
+        #[cfg(feature = "verif-hooks")]
+        self.verif_note_whole(layout, "HeapBuffer::dealloc");
         unsafe {
             dealloc(self.allocation(), layout);
         }
@@ -338,7 +353,30 @@ impl HeapBuffer {
     }
 
     fn header(&self) -> &Header {
+        #[cfg(feature = "verif-hooks")]
+        crate::verif_hooks::note(
+            crate::verif_hooks::Access::Read,
+            self.ptr.as_ptr(),
+            -(HeapBuffer::header_offset() as isize),
+            size_of::<Header>(),
+            "HeapBuffer::header",
+        );
         unsafe { &*self.ptr.as_ptr().sub(HeapBuffer::header_offset()).cast() }
+    }
+
+    /// Reports that the whole allocation is about to be moved or released.
+    #[cfg(feature = "verif-hooks")]
+    fn verif_note_whole(&self, layout: Layout, site: &'static str) {
+        let text = self.ptr.as_ptr();
+        // SAFETY: same contract as the `realloc` / `dealloc` call that follows.
+        let start = unsafe { self.allocation().offset_from(text) };
+        crate::verif_hooks::note(
+            crate::verif_hooks::Access::Write,
+            text,
+            start,
+            layout.size(),
+            site,
+        );
     }
 
     const fn align() -> usize {
